@@ -242,6 +242,9 @@ def run(pid, args):
             log("MACHINERY: model reports %s but implementation is clean: %s" % (m, p))
             v.finish()
             return 2
+    if pid in ("C13", "C08") and not args.replay:
+        from checks import exprcheck
+        exprcheck.fixed_scenarios_only(v, pid)
     if pid in NEST_PIDS:
         from checks.nestpart import nest_part
         if args.replay and json.load(open(args.replay)).get("mode") == "nest":
